@@ -4,9 +4,9 @@ CONSTANTS
   KF = {}
   RecSet = {"4:a", "6:b", "k:c"}
   Modes = {"min_max", "accept_any", "ignore_any"}
-  IvSet = {"bad", "iv1"}
+  IvSet = {"bad"}
   MaxBuf = 2
-  MaxNow = 3300
+  MaxNow = 2500
   D = 0
   K = 12
   GoodData = {"4:a", "6:b"}
